@@ -359,10 +359,10 @@ class _GenerateRenderMethod:
         self.printer.writelines(
             "def _mako_get_namespace(context, name):",
             "try:",
-            "return context.namespaces[(__name__, name)]",
+            "return context.namespaces[(_template_uri, name)]",
             "except KeyError:",
             "_mako_generate_namespaces(context)",
-            "return context.namespaces[(__name__, name)]",
+            "return context.namespaces[(_template_uri, name)]",
             None,
             None,
         )
@@ -440,7 +440,8 @@ class _GenerateRenderMethod:
                 self.printer.writeline("context['self'].%s = ns" % (node.name))
 
             self.printer.writeline(
-                "context.namespaces[(__name__, %s)] = ns" % repr(node.name)
+                "context.namespaces[(_template_uri, %s)] = ns"
+                % repr(node.name)
             )
             self.printer.write_blanks(1)
         if not len(namespaces):
